@@ -247,6 +247,13 @@ def run(prog, rep):
         """(receiver, getter name) of  <recv>.get_x()  or  getattr(<recv>, <name>)()"""
         if isinstance(e, ast.Call) and isinstance(e.func, ast.Attribute) and isinstance(e.func.value, ast.Name) and not e.args:
             return e.func.value.id, e.func.attr
+        # <recv>.get_property(<name>) dispatches to get_<name>
+        if isinstance(e, ast.Call) and isinstance(e.func, ast.Attribute) and e.func.attr == 'get_property' and isinstance(e.func.value, ast.Name) and len(e.args) == 1:
+            nm = e.args[0]
+            if isinstance(nm, ast.Constant) and isinstance(nm.value, str):
+                return e.func.value.id, 'get_' + nm.value
+            if isinstance(nm, ast.Name):
+                return e.func.value.id, ('$', nm.id, 'get_')
         if isinstance(e, ast.Call) and isinstance(e.func, ast.Call) and isinstance(e.func.func, ast.Name) and e.func.func.id == 'getattr' and \
                 len(e.func.args) == 2 and isinstance(e.func.args[0], ast.Name):
             nm = e.func.args[1]
@@ -281,8 +288,9 @@ def run(prog, rep):
             if fi is None or getter_l != getter_r:
                 rep.violation('R4', loc(base.module, n), 'BaseSliver.prop_diff', norm(n.test), 'the table-driven comparison does not pair getter and flag')
                 continue
+            pref = getter_l[2] if len(getter_l) > 2 else ''
             for row in table:
-                rows.append((row[gi], getattr(row[fi], 'name', str(row[fi])), row[gi]))
+                rows.append((pref + row[gi], getattr(row[fi], 'name', str(row[fi])), pref + row[gi]))
         else:
             ch = attr_chain(flag_expr)
             rows.append((getter_l, ch[-1] if ch else None, getter_r))
